@@ -432,6 +432,23 @@ func (g *vfGen) genC10() {
 		}
 	}
 	g.emit(vfOp("jsub", []byte(`{"accessors":[1],"asset":{"version":"2.0"}}`), 0))
+	// siblings nested about as deep as the parser's bookkeeping is sized for (the path stack is trimmed at 128
+	// entries), in front of the deciding member: at the top level, inside the deciding object, inside another object
+	for _, depth := range []int{60, 126, 127, 128, 129, 130, 200, 1000} {
+		arr := strings.Repeat("[", depth) + "1" + strings.Repeat("]", depth)
+		obj := strings.Repeat(`{"k":`, depth) + "1" + strings.Repeat("}", depth)
+		mix := strings.Repeat(`[{"k":`, depth/2) + "1" + strings.Repeat("}]", depth/2)
+		for _, deep := range []string{arr, obj, mix} {
+			for _, doc := range []string{
+				`{"log":{"x":` + deep + `,"entries":[]}}`, `{"log":{"entries":[],"x":` + deep + `}}`,
+				`{"asset":{"extras":` + deep + `,"version":"2.0"}}`, `{"x":` + deep + `,"asset":{"version":"2.0"}}`,
+				`{"x":` + deep + `,"type":"Feature"}`, `{"a":{"x":` + deep + `,"type":"Feature"}}`, `{"a":{"x":` + deep + `},"type":"Point"}`,
+				`{"a":{"b":{"x":` + deep + `,"log":{"version":1}}},"n":1}`, `{"a":{"x":` + deep + `,"log":{"version":1}},"log":{"creator":{}}}`,
+			} {
+				g.emit(vfOp("jsub", []byte(doc), 0))
+			}
+		}
+	}
 	// truncated documents with exactly one deciding member: every limit from the end of
 	// that member's value onwards
 	only := []string{`"type":"Feature"`, `"type" : "MultiPolygon" `, `"log":{"version":"1.2"}`, `"log" : { "entries" : [] }`,
